@@ -25,7 +25,8 @@ func init() {
 			" R10 kept patch text is not a window into a reader's buffer (C03-R12)." +
 			" R11 both sides of a change read names by the same declarations. R7 also: patch lines reach the parsers untrimmed." +
 			" R13 no comparison in the elision finder has two operands that both derive from offsets/positions of the patch text." +
-			" R14 = C03-R17.",
+			" R14 = C03-R17." +
+			" R15 no function of the command or the library loads Change.Name.",
 		Trusted:     commonTrusted,
 		Assumptions: commonAssumptions,
 	})
@@ -54,6 +55,7 @@ func runC13(r *an.Run) {
 	relabel(r, "R9-implicit-leading-and-trailing-elision", "R12-a-first-column-elision-is-the-implicit-one")
 	finderIgnoresSpacing(r, "R13-the-elision-finder-ignores-spacing")
 	unterminatedLastLineIsALine(r, "R14-an-unterminated-last-line-is-a-line")
+	changeNameDecidesNothing(r, "R15-the-name-of-a-change-decides-nothing")
 }
 
 func c13CommentsSkipped(r *an.Run) {
